@@ -418,7 +418,58 @@ def gen_sweep(rng, tier):
 
 
 # ordinary discount rates, incl. [.98, .995]: BELOW the gamma-near-one class (1-gamma <= 2^-10), judged at full strength
-DISC_GAMMAS = ["1/2", "9/10", "19/20", "49/50", "99/100", "199/200"]
+DISC_GAMMAS = ["0", "1/4", "1/2", "9/10", "19/20", "49/50", "99/100", "199/200"]
+
+
+def gen_discount_decides(rng):
+    """the DISCOUNT RATE decides between actions: at a choice state, 'now' pays A and ends, 'later' walks k steps (reward 0)
+    and then collects B: Q(now) = A, Q(later) = gamma^k * B.  A is put a factor m inside / outside gamma^k * B with
+    m = (1+gamma)/2 (resp. its inverse): any change of the effective discount by more than (1-gamma)/2 relative -- in the
+    evaluation OR in the improvement step -- flips the decision.  gamma in {0, 1/4, 1/2, 4/5, 9/10, 19/20}; some random
+    extra states feed into the choice state."""
+    gam = F(rng.choice(["0", "1/4", "1/2", "1/2", "4/5", "4/5", "9/10", "19/20"]))
+    k = rng.randint(1, 3)
+    B = F(rng.randint(2, 12)) * rng.choice([1, 1, -1])
+    m = (1 + gam) / 2 if gam > 0 else F(1, 2)
+    inside = rng.random() < .5
+    target = gam ** k * B
+    if gam == 0:
+        A = F(rng.choice([-2, -1, 1, 2]))            # 'later' is worth exactly 0
+    elif (B > 0) == inside:
+        A = target * m                               # |A| < |gamma^k B|
+    else:
+        A = target / m
+    # states: 0 choice, 1..k chain, k+1 terminal, then extras
+    n_extra = rng.randint(0, 2)
+    term = k + 1
+    n = k + 2 + n_extra
+    now_id, later_id = rng.sample([0, 1], 2)
+    actions = [[] for _ in range(n)]
+    trans, reward = {}, {}
+    actions[0] = [0, 1]
+    trans["0,%d" % now_id] = [[term, "1"]]
+    if A != 0:
+        reward["0,%d,%d" % (now_id, term)] = str(A)
+    trans["0,%d" % later_id] = [[1, "1"]]
+    for i in range(1, k + 1):
+        a = rng.randrange(2)
+        actions[i] = [a]
+        trans["%d,%d" % (i, a)] = [[i + 1, "1"]]
+        if i == k:
+            reward["%d,%d,%d" % (i, a, i + 1)] = str(B)
+    actions[term] = [0]
+    trans["%d,0" % term] = [[term, "1"]]
+    for x in range(term + 1, n):
+        actions[x] = [0]
+        p = F(rng.randint(1, 7), 8)
+        trans["%d,0" % x] = [[0, str(p)], [x, str(1 - p)]]
+        r = F(rng.randint(-3, 3))
+        if r != 0:
+            reward["%d,0,0" % x] = str(r); reward["%d,0,%d" % (x, x)] = str(r)
+    absorbing = [i == term for i in range(n)]
+    starts = [n - 1] if n_extra else [0]
+    return {"n": n, "nA": 2, "actions": actions, "trans": trans, "reward": reward, "absorbing": absorbing,
+            "init": [[starts[0], "1"]], "gamma": str(gam)}
 
 
 def gen_near_tie(rng, worse_first=False):
@@ -511,7 +562,8 @@ def gen_tiny(rng):
     h = F(1, 2)
     shape = rng.choice(["leak-selfloop", "two-selfloops", "asym", "exit-terminal", "tiny-exit", "cycle-leak",
                         "pair-leak", "cycle-leak-terminal", "chain-selfloops", "choice", "cycle-leak", "pair-leak",
-                        "tiny-init", "tiny-init", "tiny-init", "tiny-init", "big-reward", "big-reward"])
+                        "tiny-init", "tiny-init", "tiny-init", "tiny-init", "big-reward", "big-reward",
+                        "zero-reward-leak", "zero-reward-leak", "zero-reward-leak", "zero-reward-leak"])
     term = set()
     if shape == "tiny-init":
         # a closed class that is reachable ONLY through an initial-distribution entry of probability 2^-k
@@ -522,6 +574,20 @@ def gen_tiny(rng):
                 "reward": {"0,0,1": str(r0), "0,0,0": str(r0), "1,0,0": "1", "2,0,2": str(r1)},
                 "absorbing": [False, False, False],
                 "init": [[0, str(1 - F(1, 2**kk))], [2, str(F(1, 2**kk))]], "gamma": rng.choice(["1", "9/10", "19/20"])}
+    if shape == "zero-reward-leak":
+        # a ZERO-reward state that leaves itself with probability 2^-k (it is NOT absorbing: the exact rule wants a certain
+        # self-loop) into a closed class paying r: its gain is r (undiscounted), its value gamma-discounted r-stream
+        kk = rng.choice([14, 17, 17, 20, 20, 27])
+        ee = F(1, 2 ** kk)
+        r1 = F(rng.choice([x for x in range(-4, 6) if x != 0]))
+        two = rng.random() < .4
+        trans = {"0,0": [[0, str(1 - ee)], [1, str(ee)]], "1,0": [[1, "1"]]}
+        acts = [[0], [0]]
+        if two:
+            trans["0,1"] = [[0, str(1 - ee)], [1, str(ee)]]
+            acts = [[0, 1], [0]]
+        return {"n": 2, "nA": 2 if two else 1, "actions": acts, "trans": trans, "reward": {"1,0,1": str(r1)},
+                "absorbing": [False, False], "init": [[0, "1"]], "gamma": rng.choice(["1", "1", "9/10", "1/2"])}
     if shape == "big-reward":
         # the branch of probability 2^-k carries a reward ~ 2^k: it contributes O(1) to the expected reward
         c = F(rng.randint(1, 5)) * rng.choice([1, -1])
@@ -597,25 +663,28 @@ def gen_case(rng, tier):
     elif r < .40:
         kind = "undisc-proper-nonpos"        # every policy reaches a terminal state
         m = gen_mdp.gen_mdp(rng, nmax=nmax, amax=3, gamma="1", proper=True)
-    elif r < .47:
+    elif r < .46:
         kind = "undisc-terminal-either-sign"  # terminal states exist but need not be reached
         m = _either_sign(rng, nmax=nmax, amax=3, min_states=2)
-    elif r < .53:
+    elif r < .52:
         kind = "undisc-recurrent"             # no explicit terminal states: unichain or multichain by chance
         m = _either_sign(rng, nmax=nmax, amax=3, min_states=2, goal=False)
-    elif r < .59:
+    elif r < .58:
         kind = "undisc-blocks"                # multichain by construction
         m = gen_blocks(rng, nmax)
-    elif r < .67:
+    elif r < .65:
         kind = "undisc-farms"                 # gain-class choice with exact / near bias ties
         m = gen_farms(rng)
-    elif r < .74:
+    elif r < .71:
         kind = "undisc-large-costs"           # costs ~ -1000 .. -100, state-dependent action sets, no terminal state
         m = gen_large_costs(rng)
-    elif r < .82:
+    elif r < .78:
         kind = "tiny-probabilities"           # probabilities 2^-k / 1-2^-k, k in {8,10,20,27,30,40,52}
         m = gen_tiny(rng)
-    elif r < .88:
+    elif r < .83:
+        kind = "discounted-discount-decides"  # the discount rate decides between 'now' and 'later' (incl. gamma = 0)
+        m = gen_discount_decides(rng)
+    elif r < .89:
         kind = "discounted-near-tie"          # values ~1e3, a clone of the optimal action worse by 1e-6..1e-5 relative
         # 40%: the slightly worse clone is the INITIAL policy (lowest action id): there the unchanged code keeps it
         # (relative tie band of the improvement test) and reports values up to 1e-4 relative below the optimum --
@@ -880,16 +949,18 @@ def tiny_class_case(mdpcase, state_list):
 
 GAIN_TIE_RULE = ("signature class: UNDISCOUNTED MDP (no transition probability <= 2^-10) in which, at some non-absorbing state, an "
                  "available action has an exact action gain (P_a g*)(s) that is smaller than the optimal gain g*(s) but within "
-                 "1e-8 + 1e-5*|g*(s)| of it (inside np.isclose's default band)")
+                 "1e-8 + 1e-5*|g*(s)| of it (inside np.isclose's default band) AND is played by the returned policy with positive probability")
 
 
-def gain_inside_band(Pa, av, absorbing, gstar):
+def gain_inside_band(Pa, av, absorbing, gstar, pi=None):
+    """an available action whose exact action gain is below the optimal gain but inside np.isclose's band -- and (pi given)
+    which the returned policy actually plays with positive probability"""
     n, nA = len(Pa), len(Pa[0])
     for s in range(n):
         if absorbing[s]:
             continue
         for a in range(nA):
-            if av[s][a]:
+            if av[s][a] and (pi is None or pi[s][a] > 0):
                 gap = gstar[s] - ex(Pa, gstar, s, a)
                 if 0 < gap <= F(1, 10**8) + F(1, 10**5) * abs(gstar[s]):
                     return {"state_index": s, "action_index": a, "gain_gap": str(float(gap)), "optimal_gain": str(float(gstar[s]))}
@@ -897,12 +968,14 @@ def gain_inside_band(Pa, av, absorbing, gstar):
 
 NEAR_TIE_RULE = ("signature class: discounted MDP with 1 - gamma > 2^-10 that has a NON-optimal deterministic policy -- optimal except for "
                  "a lower-index action at one non-absorbing state -- which is stable under the improvement test at its own exact "
-                 "values: max_a Q(s,a) - Q(s,policy(s)) <= 1e-8 + 1e-5*|max_a Q(s,a)| at every state (np.isclose's default band)")
+                 "values: max_a Q(s,a) - Q(s,policy(s)) <= 1e-8 + 1e-5*|max_a Q(s,a)| at every state (np.isclose's default band), AND the "
+                 "reported state values are the exact values of that policy (up to the value bound)")
 
 
-def inside_band_lower_index(Pa, Ra, av, absorbing, gam, Vs):
+def inside_band_lower_index(Pa, Ra, av, absorbing, gam, Vs, h=None, hb=None):
     """a NON-optimal deterministic policy -- optimal except for a lower-index action b at one state -- that is stable
-    under the code's improvement test evaluated at its own exact values: max_a Q_b(s,a) - Q_b(s,b) <= 1e-8 + 1e-5*|max Q_b|"""
+    under the code's improvement test evaluated at its own exact values: max_a Q_b(s,a) - Q_b(s,b) <= 1e-8 + 1e-5*|max Q_b|
+    -- and (h given) whose exact values ARE the reported values h up to hb: only then is the mismatch the known one"""
     if 1 - gam <= F(1, 2**10):
         return None
     n, nA = len(Pa), len(Pa[0])
@@ -929,7 +1002,7 @@ def inside_band_lower_index(Pa, Ra, av, absorbing, gam, Vs):
                     if mx - qb[pol[t]] > F(1, 10**8) + F(1, 10**5) * abs(mx):
                         stable = False
                         break
-                if stable:
+                if stable and (h is None or max(abs(x - y) for x, y in zip(h, Vb)) <= hb):
                     return {"state_index": s, "action_index": b, "optimal_action_index": opt[s],
                             "q_gap": str(float(best - qs[b])), "q_optimal": str(float(best)),
                             "value_loss_of_that_policy": str(float(max(x - y for x, y in zip(Vs, Vb))))}
@@ -997,12 +1070,12 @@ def search_failing(case, res, d):
                     why["signature"] = "C16:discounted:gamma-near-one:values-not-optimal"
                     why["class_rule"] = NEAR_ONE_RULE
                     why["reported_gain"] = [str(float(x)) for x in g]
-                elif inside_band_lower_index(Pa, Ra, av, d["absorbing"], gam, Vs) is not None:
+                elif inside_band_lower_index(Pa, Ra, av, d["absorbing"], gam, Vs, h, bound) is not None:
                     # the improvement test np.isclose(bias_q[policy], bias_q[new]) is RELATIVE (1e-8 + 1e-5|Q|): a current
                     # action within that band of the best one is kept, so the iteration can stop below the optimum
                     why["signature"] = "C16:discounted:near-tie-inside-improvement-band:values-not-optimal"
                     why["class_rule"] = NEAR_TIE_RULE
-                    why["near_tie"] = inside_band_lower_index(Pa, Ra, av, d["absorbing"], gam, Vs)
+                    why["near_tie"] = inside_band_lower_index(Pa, Ra, av, d["absorbing"], gam, Vs, h, bound)
                 elif 1 - gam > F(1, 2**10) and max(abs(x) for x in g) > F(1, 10**6) * d["scale"]:
                     # a discounted evaluation system forces gain 0: a clearly non-zero reported gain means
                     # equations (gamma*P - I) g = 0 were dropped by independent_row_indices (np.isclose(det, 0)
@@ -1091,7 +1164,7 @@ def search_failing(case, res, d):
                     why = {"clause": "returned policy evaluated exactly does not attain the optimal gain",
                            "policy": name, "oracle": src, "state_index": s, "policy_gain": str(gp[s]), "optimal": str(gstar[s]),
                            "relative_shortfall": str(float((gstar[s] - gp[s]) / d["gscale"]))}
-                    nt = gain_inside_band(Pa, av, d["absorbing"], gstar) if src.startswith("exact") else None
+                    nt = gain_inside_band(Pa, av, d["absorbing"], gstar, pi) if src.startswith("exact") else None
                     if nt is not None and tiny_probability(d["P"], av, d["absorbing"]) is None:
                         # plan_on keeps every action whose action gain is np.isclose (1e-8 + 1e-5|g|) to the best one,
                         # and the gain improvement step keeps a current action inside that band
@@ -1167,6 +1240,19 @@ def run(ctx):
         case = cases[i]
         stats["gammas"][pc["mdp"]["gamma"]] = stats["gammas"].get(pc["mdp"]["gamma"], 0) + 1
         out = res["out"]
+        if "error" in out or not out.get("converged", False):
+            # masks first, also for runs that raise / do not converge (a wrong mask can be the reason)
+            try:
+                P_, R_, av_, absf_, ini_ = gen_mdp.arrays(pc["mdp"], res["state_list"], res["action_list"])
+                mab, _ = _c01.model_masks(P_, R_, av_, absf_, F(pc["mdp"]["gamma"]))
+                if "absorbing_vec" in res and list(res["absorbing_vec"]) != list(mab):
+                    stats["absorbing_vec_differs_from_model"] += 1
+                    ctx.violation("C16:masks:absorbing-mask-differs-from-model",
+                                  {"case": case, "step": j, "msdm_absorbing_state_vec": res["absorbing_vec"], "model_absorbing": list(mab),
+                                   "state_list": res["state_list"], "impl": out}, found=False)
+                    continue
+            except KeyError:
+                pass
         if "error" in out:
             stats["impl_raised"] += 1
             etype = out["error"].split(":")[0]
@@ -1255,7 +1341,8 @@ def run(ctx):
                 stats["lp_agrees"] += int(all(abs(fr(x) - y) <= F(1, 10**6) * d["scale"] for x, y in zip(lp["g"], d["g"])))
         stats["stochastic_policy_rows"] += int(any(sum(1 for x in row if x > 0) > 1 for row in d["pi"]))
         # drift counter: the model's absorbing set (computed from the arrays) vs msdm's absorbing_state_vec
-        stats["absorbing_vec_differs_from_model"] += int(list(res.get("absorbing_vec", [])) != list(d["absorbing"]))
+        mask_differs = list(res.get("absorbing_vec", [])) != list(d["absorbing"])
+        stats["absorbing_vec_differs_from_model"] += int(mask_differs)
         if undisc:
             # an available action OUTSIDE the support ties (1e-10) with the best reported action bias but has
             # a clearly lower action gain: only the gain filter of the result assembly keeps it out
@@ -1271,6 +1358,19 @@ def run(ctx):
                 bh, bg = max(qh[a] for a in av_a), max(qg[a] for a in av_a)
                 tie = tie or any(d["pi"][si][a] == 0 and abs(qh[a] - bh) <= F(1, 10**10) and qg[a] < bg - F(1, 10**6) for a in av_a)
             stats["undisc_bias_tie_with_lower_gain_action"] += int(tie)
+        if mask_differs:
+            # msdm's absorbing_state_vec against the model's exact rule (explicit flag, or: every available action is a certain
+            # self-loop (probability exactly 1) and every reward of the state is 0): a wrong mask is its own defect and is
+            # reported BEFORE any classification into the known numerical classes (whose findings are about the evaluation
+            # solve on MDPs whose masks are right)
+            why = search_failing(pc, res, d) if failed else None
+            if why:
+                why.pop("signature", None); why.pop("class_rule", None)
+            ctx.violation("C16:masks:absorbing-mask-differs-from-model",
+                          {"case": case, "step": j, "msdm_absorbing_state_vec": res.get("absorbing_vec"), "model_absorbing": list(d["absorbing"]),
+                           "state_list": res["state_list"], "failed_clauses": failed, "failing_clause": why, "impl": out},
+                          found=bool(why))
+            continue
         if failed:
             why = search_failing(pc, res, d)
             detail = {"case": case, "step": j, "failed_clauses": failed, "impl": out,
